@@ -210,10 +210,17 @@ def correspondence(ctx, model_ok=True):
     cases += [gen_trace_program(rng.fork("t%d" % i)) for i in range(n_tr)]
     plist = [("trace%d" % i, c[0], c[1]) for i, c in enumerate(cases)]
     nontrivial = set()
+    spec_steps = 0
     kinds_seen = {}
     depth_seen = {}
     for mode in ({"gc": "default", "bytecode": 1}, {"gc": "always", "quarantine": 1}):
-        res, _ = progs.run_programs(ctx.runner, plist, mode, tag="t")
+        res, tlines = progs.run_programs(ctx.runner, plist, mode, tag="t")
+        if mode.get("bytecode") and model_ok:
+            full = vlib.run_real(ctx.runner, tlines)
+            sd = specdiff.diff_lines(ctx, tlines, full, broken, what="failing program",
+                                     payload_of=lambda i: {"program": plist[i][1], "modules": plist[i][2]})
+            failures += sd["failures"]
+            spec_steps = sd["compared"]
         for (name, src, mods), (s, m, kind, first, trace), r in zip(plist, cases, res):
             c = progs.canon_step(r)
             bad = None
@@ -279,7 +286,7 @@ def correspondence(ctx, model_ok=True):
                 "plus host-native errors and %d single-fault compile-error injections with known line" % len(cat),
         "samples": [cases[0][0], cases[0][4]],
         "error_kinds": kinds_seen, "trace_depths": depth_seen,
-        "programs": n_tr + n_corpus + len(host) + len(cat), "corpus_replays": n_corpus,
+        "programs": n_tr + n_corpus + len(host) + len(cat), "corpus_replays": n_corpus, "steps_compared_with_reference_interpreter": spec_steps,
     }
     return {"failures": dedupe(failures), "coverage": cov, "broken": broken}
 
@@ -292,6 +299,8 @@ def dedupe(failures):
 
 
 def replay(ctx, payload):
+    if "case_line" in payload:
+        return specdiff.replay_line(ctx, payload)
     if "program" not in payload:
         return False, "nothing to replay"
     r, _ = progs.run_programs(ctx.runner, [("r", payload["program"], payload.get("modules", {}))], {"gc": "default"})
